@@ -157,16 +157,16 @@ class DofTable:
 
 
 class XStub:
-    def __init__(self, tag):
-        self.tag = tag
+    def __init__(self, tag, nq=None):
+        self.tag, self.nq = tag, nq
 
     def skv_getattr(self, name):
         if name == "shape":
-            tag = self.tag
+            tag, nq = self.tag, self.nq
 
             class Sh:
                 def skv_getitem(self, k):
-                    return Poly.sym(f"nqp[{tag}]")
+                    return nq if nq is not None else Poly.sym(f"nqp[{tag}]")
             return Sh()
         raise Unsupported("X." + name)
 
@@ -187,7 +187,7 @@ class BasisStub:
         if name == "dx":
             return Poly.sym(f"dx[{t}]")
         if name == "X":
-            return XStub(t)
+            return XStub(t, getattr(self.run, "nqp", {}).get(t))
         if name == "basis":
             return BasisList(t, self.Nbfun.value)
         if name == "element_dofs":
@@ -217,9 +217,10 @@ class Run:
     def __init__(self, model: Model, cls_name: str, method: str,
                  sizes: Dict[str, int], nthreads: int = 0,
                  pass_v: bool = True, extra_args=(),
-                 schedule: str = "eager"):
+                 schedule: str = "eager", nqp: Dict[str, int] = None):
         self.model = model
         self.schedule = schedule
+        self.nqp = nqp or {}     # concrete numbers of quadrature points
         self.bufs: List[Buf] = []
         self.threads: List[ThreadStub] = []
         self.events: List[tuple] = []
@@ -347,6 +348,10 @@ class Run:
             self.result = self.interp.call(self.fn, args, {},
                                            self_obj=self.obj)
         except Raised as e:
+            if self.nqp:
+                self.raised = e.what
+                self.result = None
+                return
             raise AnalysisError(f"{cls_name}.{method}: reaches "
                                 f"'{e.what[:60]}' on the symbolic run")
         except Unsupported as e:
